@@ -148,3 +148,21 @@ Definition pos_def (n : nat) (H : nat -> nat -> R) : Prop :=
 Definition is_right_inverse (n : nat) (H V : nat -> nat -> R) : Prop :=
   forall i j, (i < n)%nat -> (j < n)%nat -> rsum_n (fun k => H i k * V k j) n = delta i j.
 Definition fdiag (d : nat -> R) (i j : nat) : R := if Nat.eqb i j then d i else 0.
+
+(* ---------- cal_hesse_correct (applications.py:312): second derivatives by finite differences, step e ---------- *)
+(* diagonal entry, points x+2e, x+e, x-e, x-2e:  gp = (f(x+2e) - f(x-e))/3/e, gm = (f(x+e) - f(x-2e))/3/e, h = (gp - gm)/e *)
+Definition hc1 (g : R -> R) (x e : R) : R :=
+  ((g (x + 2 * e) - g (x - e)) / 3 / e - (g (x + e) - g (x - 2 * e)) / 3 / e) / e.
+Definition hc_diag (f : list R -> R) (xs : list R) (e : R) (i : nat) : R :=
+  hc1 (fun t => f (upd xs i t)) (nth i xs 0) e.
+(* before the repair gm was built from f(x-e) (nll_mp) instead of f(x+e) (nll_pm, computed and never used) *)
+Definition hc1_old (g : R -> R) (x e : R) : R :=
+  ((g (x + 2 * e) - g (x - e)) / 3 / e - (g (x - e) - g (x - 2 * e)) / 3 / e) / e.
+(* off-diagonal entry: gp = (f(+,+) - f(+,-))/(2e), gm = (f(-,+) - f(-,-))/(2e), h = (gp - gm)/(2e) *)
+Definition hc2 (g : R -> R -> R) (x y e : R) : R :=
+  ((g (x + e) (y + e) - g (x + e) (y - e)) / (2 * e) - (g (x - e) (y + e) - g (x - e) (y - e)) / (2 * e)) / (2 * e).
+Definition hc_off (f : list R -> R) (xs : list R) (e : R) (i j : nat) : R :=
+  hc2 (fun s t => f (upd (upd xs i s) j t)) (nth i xs 0) (nth j xs 0) e.
+
+(* ---------- ParamsTrans.get_error_matrix: (J V J^T)_kl, row k of J is the gradient of y_k ---------- *)
+Definition jvjt_kl (J V : list (list R)) (k l : nat) : R := dot (mat_vec V (nth l J [])) (nth k J []).
